@@ -1,10 +1,161 @@
 /-
   EG.Driver.Mock — model side of the `mock.*` correspondence streams (harness/src/m_mock.rs).
+
+  mock.hist <ty> <ao> <ab> <k> <op>*k <ao2> <ab2> <k2> <op>*k2
+      -> n= st= c= aa= n2= st2= c2h= eq= diff= dh= rt=
+  mock.pattern <ty> <k> <|row>*k   -> ok c= aa= e= dbg= rt= sw= mp=   |  err=<width|height|row|char>
+  mock.get <x> <y>                 -> some:<c> | none | panic
+  mock.c2ch <ty> <c,c,..>          -> char codes
+  mock.ch2c <ty> <code,code,..>    -> colours, `p` where `char_to_color` panics
 -/
 import EG.Driver.Util
+import EG.Model.MockDisplay
 namespace EG.Driver
-open EG
+open EG EG.Mock
 
-def handleMock (_stream : String) (_t : Toks) : Option String := none
+def mockCT : String → Option CT
+  | "binary" => some .binary | "gray2" => some .gray2 | "gray4" => some .gray4 | "gray8" => some .gray8
+  | "rgb332" => some .rgb332 | "rgb444" => some .rgb444 | "rgb555" => some .rgb555
+  | "bgr555" => some .bgr555 | "rgb565" => some .rgb565 | "bgr565" => some .bgr565
+  | "rgb888" => some .rgb888 | "bgr888" => some .bgr888
+  | _ => none
+
+def mockFnv (s : String) : Nat :=
+  (s.toUTF8.foldl (fun (h : UInt64) b => (h ^^^ b.toUInt64) * 0x100000001b3) 0xcbf29ce484222325).toNat
+
+def mockWrites (s : String) : Writes :=
+  if s == "-" then [] else
+  (s.splitOn ";").map (fun e =>
+    match e.splitOn "," with
+    | [x, y, c] => (⟨parseInt x, parseInt y⟩, parseNat c)
+    | _ => (⟨0, 0⟩, 0))
+
+def mockOp (tok : String) : Option Op :=
+  match tok.splitOn ":" with
+  | ["p", a] =>
+    match a.splitOn "," with
+    | [x, y, c] => some (.drawPixel ⟨parseInt x, parseInt y⟩ (parseNat c))
+    | _ => none
+  | ["i", a] => some (.call (.drawIter (mockWrites a)))
+  | ["f", a] =>
+    match a.splitOn "," with
+    | [x, y, w, h, c] => some (.call (.fillSolid ⟨⟨parseInt x, parseInt y⟩, ⟨parseNat w, parseNat h⟩⟩ (parseNat c)))
+    | _ => none
+  | ["g", a, cs] =>
+    match a.splitOn "," with
+    | [x, y, w, h] => some (.call (.fillContiguous ⟨⟨parseInt x, parseInt y⟩, ⟨parseNat w, parseNat h⟩⟩ (parseNatList cs)))
+    | _ => none
+  | ["s", a] =>
+    match a.splitOn "," with
+    | [x, y, c] => some (.setPixel ⟨parseInt x, parseInt y⟩ (if c == "n" then none else some (parseNat c)))
+    | _ => none
+  | ["c", c] => some (.call (.clear (parseNat c)))
+  | ["o", v] => some (.setOverdraw (v == "1"))
+  | ["b", v] => some (.setOob (v == "1"))
+  | _ => none
+
+/-- run a history, counting the operations that completed -/
+def mockRun (d : MD) : List Op → Nat → MD × Nat × Bool
+  | [], n => (d, n, true)
+  | o :: rest, n =>
+    match d.step o with
+    | .ok d' => mockRun d' rest (n + 1)
+    | .panic d' => (d', n, false)
+
+/-- `get_pixel` over the 64 x 64 cells, row-major; `none` if any of them panics -/
+def mockDump (d : MD) : Option (List (Pt × Nat)) :=
+  (List.range 4096).foldr (fun i acc =>
+    let p : Pt := ⟨((i % 64 : Nat) : Int), ((i / 64 : Nat) : Int)⟩
+    match acc, d.getPixel p with
+    | some l, some (some c) => some ((p, c) :: l)
+    | some l, some none => some l
+    | _, _ => none) (some [])
+
+def mockFmtDump (d : MD) : String :=
+  match mockDump d with
+  | some l => fmtPix l
+  | none => "panic"
+
+def mockHistory (t : Toks) : Option (MD × Nat × Bool × Toks) :=
+  let (ao, t) := t.nat
+  let (ab, t) := t.nat
+  let (k, t) := t.nat
+  let opsToks := t.take k
+  let rest := t.drop k
+  match opsToks.mapM mockOp with
+  | none => none
+  | some ops =>
+    let d0 : MD := (MD.new.setAllowOverdraw (ao == 1)).setAllowOob (ab == 1)
+    let (d, n, ok) := mockRun d0 ops 0
+    some (d, n, ok, rest)
+
+def mockRoundTrip (ct : CT) (d : MD) : String :=
+  match fromPattern ct (d.debugRows ct) with
+  | .ok d' => if d'.eq d && d.eq d' then "1" else "0"
+  | .panicWidth => "pw"
+  | .panicHeight => "ph"
+  | .panicRow => "pr"
+  | .panicChar => "pc"
+
+def mockOptDump : Option MD → String
+  | some d => mockFmtDump d
+  | none => "panic"
+
+def handleMock (stream : String) (t : Toks) : Option String :=
+  match stream with
+  | "mock.hist" =>
+    let (ty, t) := t.str
+    match mockCT ty with
+    | none => none
+    | some ct =>
+      match mockHistory t with
+      | none => none
+      | some (d, n, ok, t) =>
+        match mockHistory t with
+        | none => none
+        | some (d2, n2, ok2, _) =>
+          let st (b : Bool) := if b then "ok" else "panic"
+          some s!"n={n} st={st ok} c={mockFmtDump d} aa={fmtRect d.affectedArea} n2={n2} st2={st ok2} c2h={mockFnv (mockFmtDump d2)} eq={if d.eq d2 then 1 else 0} diff={mockOptDump (d.diff d2)} dh={mockFnv (d.debugText ct)} rt={mockRoundTrip ct d}"
+  | "mock.pattern" =>
+    let (ty, t) := t.str
+    match mockCT ty with
+    | none => none
+    | some ct =>
+      let (k, t) := t.nat
+      let rows := (t.take k).map (fun s => (s.toList.drop 1).map (fun c => if c == '_' then ' ' else c))
+      match fromPattern ct rows with
+      | .panicWidth => some "err=width"
+      | .panicHeight => some "err=height"
+      | .panicRow => some "err=row"
+      | .panicChar => some "err=char"
+      | .ok d =>
+        let dbg := joinOr "/" ((d.debugRows ct).map (fun r => String.ofList (r.map (fun c => if c == ' ' then '_' else c))))
+        let bits := ct.bits
+        some s!"ok c={mockFmtDump d} aa={fmtRect d.affectedArea} e={d.emptyRows} dbg={dbg} rt={mockRoundTrip ct d} sw={mockFnv (mockOptDump d.swapXy)} mp={mockFnv (mockOptDump (d.map (fun c => (c + 1) % 2 ^ bits)))}"
+  | "mock.get" =>
+    let (p, _) := t.pt
+    let d : MD := ⟨Vector.ofFn (fun i : Fin 4096 => if i.val % 3 = 0 then none else some (i.val + 1)), false, false⟩
+    match d.getPixel p with
+    | none => some "panic"
+    | some none => some "none"
+    | some (some c) => some s!"some:{c}"
+  | "mock.c2ch" =>
+    let (ty, t) := t.str
+    match mockCT ty with
+    | none => none
+    | some ct =>
+      let (cs, _) := t.natList
+      some (fmtNats (cs.map (fun c => (colorToChar ct c).toNat)))
+  | "mock.ch2c" =>
+    let (ty, t) := t.str
+    match mockCT ty with
+    | none => none
+    | some ct =>
+      let (cs, _) := t.natList
+      some (joinOr "," (cs.map (fun n =>
+        match charToColor ct (Char.ofNat n) with
+        | some c => toString c
+        | none => "p")))
+  | _ => none
 
 end EG.Driver
